@@ -96,7 +96,6 @@ func workloadSpecs(thorough bool) []wlSpec {
 		add(false, false, 1, false, false, 2)
 		add(true, true, 2, true, false, 3)
 		add(false, true, 3, false, true, 3)
-		add(true, false, 1, true, true, 4)
 		return out
 	}
 	for _, two := range []bool{false, true} {
@@ -870,7 +869,7 @@ func main() {
 			"the documented fatal exit for files shorter than the 8 byte magic counts as a clear refusal",
 			"reference model verif/model/dbmodel snapshotted at every persist point; state record layout (36 bytes) is harness knowledge, verified against the file",
 		},
-		QuickBudget: 80, ThoroughBudget: 900,
+		QuickBudget: 70, ThoroughBudget: 900,
 		Procs: 16, ProcMaxProcs: 2,
 		Run: run, Replay: replay,
 	})
